@@ -21,7 +21,7 @@ EXHAUSTIVE_SUBDOMAINS = ["atmos on the 10 m altitude grid over [-500, 20000] m"]
 ASSUMPTIONS = ["'tabulated ISA' = analytic hydrostatic ISA with g0, R, lapse rate -6.5 K/km, isothermal above 11 km",
                "round-trip tolerance 1e-8 relative (double precision through two pow() calls)"]
 REQUIRED = ["arrays_of_more_than_4M_rows", "same_shape_tables_converted_by_4_threads", "array_with_a_missing_row", "atmos_grid", "tropopause", "roundtrip", "monotone", "sea_level", "ordering", "distance_uniform",
-            "distance_antipodal", "distance_identical", "distance_cardinal", "distance_with_H", "recall_after_in_place_edit", "narrow_integer_dtypes", "non_contiguous_layouts", "bearing", "array_equals_scalar", "types"]
+            "distance_antipodal", "distance_identical", "distance_cardinal", "distance_with_H", "recall_after_in_place_edit", "narrow_integer_dtypes", "non_contiguous_layouts", "bearing", "array_equals_scalar", "types", "altitude_table_with_all_rows_equal"]
 
 
 def rel(a, b):
@@ -518,6 +518,10 @@ def cases(ctx):
             if k % 2 == 0:
                 H = [abs(h) for h in H]      # non-negative altitudes: also representable in unsigned dtypes
             V = [float(rng.choice((1, 181, 182, 255, 256, 257, 450, rng.randint(1, 450)))) for _ in range(n)]
+        if rng.random() < 0.3:
+            # a level segment: every row of the table at the SAME altitude (a cruise leg; a whole number of metres in half of them)
+            H = [float(abs(int(H[0]))) if rng.random() < 0.5 else H[0]] * n
+            ctx.hit("altitude_table_with_all_rows_equal")
         yield "types", {"H": H, "v": V}
     # geo
     def rp():
